@@ -37,6 +37,29 @@ theorem C16_literal_structure (pre post s : List Char) (tp : List Tok) (st : St)
 example : lex ("insert into t values (".toList ++ sfLit "a;b'--/*\\".toList ++ ");".toList) =
     some ("insertintotvalues(".toList.map .chr ++ [.str "a;b'--/*\\".toList, .chr ')', .semi]) := by decide
 
+/-- **Comments are not statements and not part of them**: a block comment read at a token start yields no token,
+    so the tokens of `/* … */ rest` are the tokens of `rest` — a statement with comments before and after it keeps exactly
+    its own tokens (and is therefore never dropped by the splitter, which drops token-free parts only: `C16_split`). -/
+theorem C16_block_comment_no_tokens (body rest : List Char) (h : '*' ∉ body) :
+    lex ('/' :: '*' :: body ++ '*' :: '/' :: rest) = lex rest := by
+  have hb := run_block_body body h
+  have h1 : step .top '/' = ([], .slash) := by simp [step, stepTop]
+  have h2 : step .slash '*' = ([], .block) := by simp [step]
+  simp only [List.cons_append]
+  rw [lex, lexFrom_cons, h1]
+  simp only []
+  rw [lexFrom_cons, h2]
+  simp only []
+  rw [show body ++ '*' :: '/' :: rest = (body ++ ['*', '/']) ++ rest by simp, lexFrom_append, hb]
+  show Option.map _ (Option.map _ (Option.map _ (lexFrom St.top rest))) = lexFrom St.top rest
+  cases lexFrom St.top rest <;> simp
+
+example : stmtCount "/* a */ update t set v = 1 /* b */; -- x\n ; /* only */ ; select 1 -- t\n".toList = some 2 := by decide
+
+/-- a byte order mark, zero-width and other unusual code points inside a literal are data like any other character -/
+example : lex (sfLit ['a', Char.ofNat 0xFEFF, 'b', Char.ofNat 0x200B, Char.ofNat 0x2028]) =
+    some [.str ['a', Char.ofNat 0xFEFF, 'b', Char.ofNat 0x200B, Char.ofNat 0x2028]] := by decide
+
 /-! ## splitting -/
 
 /-- **`;` between tokens separates**: if `s1` leaves the tokenizer between tokens, the tokens of `s1 ; s2` are the
